@@ -24,8 +24,8 @@ PROP = {
                     "ext_accept_implies_canonical is a diagnostic for the 9 message types whose Decode keeps the extension as "
                     "opaque bytes on the pinned tree (stfu, dyn_reject, update_fail_htlc, update_fee, update_fail_malformed_htlc, "
                     "announcement_signatures, query_short_channel_ids, reply_short_channel_ids_end, kickoff_sig)",
-                    "ext_reencode_reproduces_input is a diagnostic: on the pinned tree 15 message types drop unknown extension "
-                    "records on re-encode"],
+                    "ext_reencode_reproduces_input is a diagnostic; its narrowly fingerprinted sub-case unknown_records_preserved "
+                    "(exactly the unknown-type records missing after re-encode) is verdict-bearing and matched by KF-C10-6"],
     "eval_counter": "decodes",
     "race_anchors": ["lnwire/message.go", "lnwire/lnwire.go", "lnwire/extra_bytes.go", "lnwire/custom_records.go",
                      "lnwire/onion_error.go", "lnwire/features.go", "lnwire/query_short_chan_ids.go",
@@ -39,7 +39,8 @@ PROP = {
             "fatal_is_violation": True,
             "floors": {"quick": {"decodes": 225000, "accepted": 70000, "rejected": 150000, "fixpoint_evals": 59000,
                                  "lossless_evals": 2280, "alloc_evals": 95000, "ext_decodes": 36000,
-                                 "ext_accept_implies_canonical_evals": 12000, "ext_reencode_evals": 2900},
+                                 "ext_accept_implies_canonical_evals": 12000, "ext_reencode_evals": 2900,
+                                 "unknown_records_preserved_evals": 2900},
                        "thorough": {"decodes": 7500000, "accepted": 2300000, "rejected": 5000000,
                                     "fixpoint_evals": 1900000, "lossless_evals": 76000, "alloc_evals": 3200000,
                                     "ext_decodes": 1200000, "ext_accept_implies_canonical_evals": 400000,
